@@ -693,6 +693,10 @@ class Exec:
             x = V(ins['x']); i = V(ins['index'])
             if isinstance(x, ArrayV):
                 return self.index_fork(st, fr, ins, i, len(x), lambda s, f, k: f.regs.__setitem__(ins['reg'], self.force(s, x[k])))
+            if z3.is_expr(x) and z3.is_string(x):
+                ii = as_int(i); n = z3.Length(x)
+                self.check_fault(st, z3.Or(ii < 0, ii >= n), 'index out of range (string)')
+                R[ins['reg']] = str_byte(x, ii); return None
             raise Unsupported('Index on ' + repr(x))
         elif op == 'BinOp':
             R[ins['reg']] = self.binop(st, ins, V(ins['x']), V(ins['y']))
@@ -892,7 +896,7 @@ class Exec:
         if z3.is_expr(x) and z3.is_string(x):
             i = as_int(key); n = z3.Length(x)
             self.check_fault(st, z3.Or(i < 0, i >= n), 'index out of range (string)')
-            R[ins['reg']] = z3.Int2BV(z3.StrToCode(z3.SubString(x, i, 1)), 8); return None
+            R[ins['reg']] = str_byte(x, i); return None
         et = self.ir.under(ins['xtype'])[1]['elem']
         def setres(s, v, ok):
             if isinstance(v, (StructV, ArrayV)): v = clone(v)
@@ -1412,6 +1416,34 @@ class Exec:
         vals = list(vals)
         if not vals: return NILSLICE()
         return SliceV(st.alloc(ArrayV(vals)), 0, len(vals), len(vals))
+
+
+def bytes_string(name, n):
+    """a Go string of exactly n arbitrary bytes as a z3 sequence of unit characters (byte loops then simplify per index)"""
+    bs = [z3.BitVec(f'{name}[{i}]', 8) for i in range(n)]
+    if n == 0: return z3.StringVal(''), bs
+    us = [z3.Unit(z3.CharFromBv(z3.ZeroExt(10, b))) for b in bs]
+    return (z3.Concat(*us) if n > 1 else us[0]), bs
+
+
+def str_byte(x, i):
+    """x[i] as an 8-bit vector; recognises unit-character strings so that byte loops stay in the bit-vector theory"""
+    sub = z3.simplify(z3.SubString(x, i, 1))
+    try:
+        if sub.decl().kind() == z3.Z3_OP_SEQ_UNIT:
+            c = sub.children()[0]
+            if c.decl().kind() == z3.Z3_OP_CHAR_FROM_BV:
+                b = c.children()[0]
+                return z3.simplify(z3.Extract(7, 0, b))
+            if c.decl().kind() == z3.Z3_OP_CHAR_CONST:
+                return z3.BitVecVal(c.params()[0] & 0xff, 8)
+        if z3.is_string_value(sub) and len(sub.as_string()) >= 1:
+            import re as _re
+            t = _re.sub(r'\\u\{([0-9a-fA-F]+)\}', lambda m: chr(int(m.group(1), 16)), sub.as_string())
+            if len(t) == 1: return z3.BitVecVal(ord(t) & 0xff, 8)
+    except Exception:
+        pass
+    return z3.Int2BV(z3.StrToCode(sub), 8)
 
 
 def free_consts(e, acc=None, seen=None):
